@@ -344,6 +344,36 @@ class Violation(Exception):
     pass
 
 
+def _ast_hash(path: Path) -> str:
+    import ast
+
+    try:
+        return hashlib.sha1(ast.dump(ast.parse(path.read_text())).encode()).hexdigest()[:16]
+    except Exception:
+        return "unparsable"
+
+
+def anchored_files(prop: str):
+    for l in (VERIF / "properties.jsonl").read_text().splitlines():
+        if l.strip():
+            d = json.loads(l)
+            if d["id"] == prop:
+                return d["anchors"]["files"]
+    return []
+
+
+def source_changed(prop: str):
+    """files anchored by the property whose normalised AST differs from the one the model was last
+    reviewed against (harness/source_hashes.json). Informational: it only enlarges the generation budget."""
+    ref_p = VERIF / "harness" / "source_hashes.json"
+    ref = json.loads(ref_p.read_text()) if ref_p.exists() else {}
+    changed = []
+    for f in anchored_files(prop):
+        if ref.get(f) is not None and _ast_hash(REPO / f) != ref[f]:
+            changed.append(f)
+    return changed
+
+
 class Check:
     """Collects cases, disagreements and the evidence of one run."""
 
@@ -365,6 +395,12 @@ class Check:
         self.extra = {}
         self.known_hit = {}
         self.budget_mult = 1
+        self.changed_sources = source_changed(prop)
+        self.extra["anchored_sources_changed_since_review"] = self.changed_sources
+
+    def scale(self, n: int) -> int:
+        """generation budget: tripled when an anchored source file differs from the reviewed version"""
+        return n * 3 if self.changed_sources else n
 
     # -- bookkeeping ---------------------------------------------------------
     def count(self, key, sub=None):
